@@ -235,14 +235,19 @@ mod imp {
         shuttle::thread::yield_now();
     }
 
+    /// Set by `sleep()`. The scheduler takes (and clears) it.
+    pub static SLEEP_HINT: AtomicBool = AtomicBool::new(false);
+
     /// Stand-in for `std`, for code that names `std::thread` directly.
     pub mod stdshim {
         pub use std::time;
         /// Threads.
         pub mod thread {
             pub use shuttle::thread::Builder;
-            /// Sleep is just a scheduling point.
+            /// Sleep is a scheduling point, with a hint to the scheduler that
+            /// this task would rather not be the one to continue.
             pub fn sleep(_dur: std::time::Duration) {
+                super::super::SLEEP_HINT.store(true, std::sync::atomic::Ordering::SeqCst);
                 shuttle::thread::yield_now();
             }
         }
